@@ -40,4 +40,35 @@ CHECKS = {
              "and sounded pitch classes of each.",
         note=TB,
         technique="TLA+ oracle (Harmonise in Theory.tla) + TLC validation of whole-pipeline observations, exhaustive"),
+    "C01": dict(
+        text="Piece.tla/Theory.tla give the bag of keys every chord must sound (60 + tonic of the key in force + degree, tones of the symbol, bass an octave "
+             "down). Table part: 28 keys x all 90 degree notations x symbols / bass notations (thorough: all 46 names and displays, all 90 basses = 342,720 "
+             "chords); history part: seeded documents with key changes anywhere, +/- --key. Every chord the real `crd write` sounded (SMF bytes, decoded by the "
+             "independent reader) is compared by TLC, grouping note-ons by file order so the verdict does not depend on timing.",
+        note=TB,
+        technique="TLA+ what-layer (Piece.tla) + TLC validation of events decoded from the real CLI's SMF output"),
+    "C02": dict(
+        text="Exact rational arithmetic in Piece.tla (round(T*v), either neighbour at an exact half): every chord's strikes at Start(i), releases at Start(i+1), "
+             "rests silent, first instance at 0, release-before-strike per track. Bounded-exhaustive sequences over 15 instance kinds (length <= 2 quick, <= 3 "
+             "thorough) + seeded long sequences, each through the real `crd write`.",
+        note=TB + "; float64 vs rational can only differ within 1e-13 of a half tick, generators stay >= 1/128 tick away except the dedicated exact-half cases",
+        technique="TLA+ what-layer (Piece.tla timeline) + TLC validation of decoded SMF ticks, bounded-exhaustive + seeded"),
+    "C06": dict(
+        text="For each generated document the real binary is run with --track N and --track 1; TLC requires equal merged bags of (tick, event) and every "
+             "track's end-of-track at Total(document) (trailing rests included). N in {2,3,4,7} quick, {2,3,4,5,8,16,32} thorough.",
+        note=TB,
+        technique="TLA+ what-layer (Piece.tla) + TLC validation of N-track vs 1-track observations of the real CLI"),
+    "C07": dict(
+        text="Demands(document, flags) in Piece.tla lists the control events a document requires (tempo/meter/key at instance 1 always, later only explicit "
+             "settings, txt/lic/mrk); TLC requires exactly those, at Start(i), with us/quarter = 60e6/bpm (either neighbour), nn/2^dd, sf/mi by "
+             "circle-of-fifths arithmetic, UTF-8 payload bytes, and velocity persistence / strict loudness order. All 28 keys, 6 dynamics, seeded flag subsets.",
+        note=TB + "; bpm drawn from 4..60,000,000 and meter denominators from powers of two <= 128 (outside, SMF cannot carry the written value)",
+        technique="TLA+ what-layer (Piece.tla Demands) + TLC validation of decoded SMF meta events of the real CLI"),
+    "C08": dict(
+        text="SMF.tla is a byte-level recogniser written from the SMF 1.0 specification: one TLC state per byte of every file the real `crd write` produced "
+             "(seeded documents x track counts x --program x --instrument, stdout and -o), checking header, format/ntrks, chunk lengths, VLQs, running status, "
+             "data bytes, meta lengths, exactly one final end-of-track per chunk, note-on/off balance, tempo/time/key signature only in the first chunk; its "
+             "decoded event list must equal the harness reader's. SMFSanity: hand-built files and 33 corruption classes get the labelled verdicts.",
+        note="TLC, SMF.tla; note balance is checked per track (crd keeps a note's on and off on one track)",
+        technique="TLA+ byte-level recogniser as trace specification; TLC validates the raw bytes written by the real CLI"),
 }
